@@ -93,6 +93,109 @@ Example C01_nonvacuous :
   | Err _ => False end.
 Proof. vm_compute. repeat split; reflexivity. Qed.
 
+(* 8. END TO END for the merge matcher (MaximizeMergeMatching): the label map the merge loop builds assigns every prediction to at
+      most one reference, consists of overlapping pairs, and every matched reference carries the combined score of exactly the
+      predictions merged into it (meeting the threshold, at least as good as one of them alone); the evaluated instances are
+      exactly the matched references, and every reported list holds their set-definition scores against the UNION of the
+      predictions merged into them; tp/fp/fn count accordingly. Hypothesis: the candidates' scores are the combined scores of the
+      single predictions (what the candidate computation and new_combination_score both call: the same metric) *)
+From Pan Require Import Proofs.MergeFacts Proofs.C01EndToEndMerge.
+Theorem C01_end_to_end_merge_matcher : forall x c a r,
+  nonneg_arr a -> c_matcher c = 3 -> overlap_only (c_ems c) ->
+  zero_case (n_pred_inst a) (n_ref_inst a) = None -> pipeline x c a = Ok r ->
+  let decr := decreasing (c_mmetric c) in
+  let cs := cand_list x (c_mmetric c) a in
+  (forall cd, In cd cs -> fst cd = x_union x (cref cd) [cpred cd]) ->
+  let st := merge_match (better_eq decr) Qeq_bool (fun s => beats decr s (c_mthr c)) (x_union x) cs in
+  let L := ms_map st in let a' := map_instance_labels L a in
+  NoDup (map fst L) /\
+  (forall p l, In (p, l) L -> exists cd, In cd cs /\ cref cd = l /\ cpred cd = p) /\
+  (forall l, (exists p, In (p, l) L) ->
+     exists s, lookup_score l (ms_score st) = Some s /\ s = x_union x l (preds_of l L) /\ beats decr s (c_mthr c) = true /\
+       exists cd, In cd cs /\ cref cd = l /\ beats decr (fst cd) (c_mthr c) = true /\ In (cpred cd, l) L
+                  /\ better_eq decr s (fst cd) = true) /\
+  (forall l, In l (matched_labels a') <-> exists p, In (p, l) L) /\
+  let score := fun (m : metric) (l : Z) =>
+     match m with DSC => dice (Some (l, preds_of l L)) a | _ => iou (Some (l, preds_of l L)) a end in
+  let TP := filter (fun l => passes_decision (c_dm c) (c_dthr c) (fun m => score m l)) (matched_labels a') in
+  (zero_case (n_pred_inst a') (n_ref_inst a') = None ->
+     o_tp r = Z.of_nat (length TP) /\
+     (forall mr, In mr (o_metrics r) -> m_all mr = map (score (m_metric mr)) TP) /\
+     o_fp r = n_pred_inst a' - o_tp r /\ o_fn r = n_ref_inst a - o_tp r).
+Proof. exact end_to_end_merge. Qed.
+
+(* non-vacuity: reference 1 is covered by the two fragments 7 and 8 (IoU 1/2 each, threshold 1/4); merging them gives IoU 1 *)
+Example C01_merge_nonvacuous :
+  let a := [(1, 7); (1, 7); (1, 8); (1, 8); (0, 0)] in
+  let x := {| x_inst := fun _ _ => 0%Q; x_pair := fun _ => 0%Q; x_union := fun r ps => iou (Some (r, ps)) a |} in
+  let c := {| c_matcher := 3; c_mmetric := IOU; c_mthr := 1 # 4; c_ems := [IOU; DSC];
+              c_dm := None; c_dthr := None; c_handler := default_handler |} in
+  (forall cd, In cd (cand_list x IOU a) -> fst cd = x_union x (cref cd) [cpred cd]) /\
+  match pipeline x c a with
+  | Ok r => o_tp r = 1 /\ o_fp r = 0 /\ o_fn r = 0 /\ map (fun mr => map Qred (m_all mr)) (o_metrics r) = [[1 # 1]; [1 # 1]]
+  | Err _ => False end.
+Proof.
+  cbv zeta. split.
+  - intros cd Hcd. vm_compute in Hcd. destruct Hcd as [<-|[<-|[]]]; vm_compute; reflexivity.
+  - vm_compute. repeat split; reflexivity.
+Qed.
+
+(* 9. END TO END for EVERY instance metric (IoU, Dice, RVD, ASSD, clDice in any combination, with or without a decision metric):
+      IoU / Dice / RVD entries are the set-definition scores against the union of the assigned predictions (RVD is defined for
+      every evaluated instance), ASSD / clDice entries are the geometric values of the evaluated instances supplied to the model
+      (x_inst; what they are is Props/C07 and Props/C06). Threshold matcher and merge matcher. *)
+From Pan Require Import Proofs.C01EndToEndAll.
+Theorem C01_end_to_end_every_metric : forall x c a r,
+  nonneg_arr a -> (c_matcher c = 1 \/ c_matcher c = 2) ->
+  zero_case (n_pred_inst a) (n_ref_inst a) = None -> pipeline x c a = Ok r ->
+  let decr := decreasing (c_mmetric c) in let m2o := c_matcher c =? 2 in
+  let cs := cand_list x (c_mmetric c) a in
+  exists M,
+    P1 Q m2o M /\ P2 Q (fun s => beats decr s (c_mthr c)) cs M /\
+    P3 Q (fun s => beats decr s (c_mthr c)) m2o cs M /\
+    P4 Q (better_eq decr) (fun s => beats decr s (c_mthr c)) m2o cs M /\
+    let L := lmap_of M in let a' := map_instance_labels L a in
+    (forall l, In l (matched_labels a') <-> exists p, In (p, l) L) /\
+    let TP := filter (fun l => passes_decision (c_dm c) (c_dthr c) (fun m => escore x L a m l)) (matched_labels a') in
+    (zero_case (n_pred_inst a') (n_ref_inst a') = None ->
+       o_tp r = Z.of_nat (length TP) /\
+       (forall mr, In mr (o_metrics r) -> m_all mr = map (escore x L a (m_metric mr)) TP) /\
+       (In RVD (c_ems c) -> forall l, In l (matched_labels a') -> rvd (Some (l, preds_of l L)) a = Ok (escore x L a RVD l)) /\
+       o_fp r = n_pred_inst a' - o_tp r /\ o_fn r = n_ref_inst a - o_tp r).
+Proof. exact end_to_end_all. Qed.
+
+Theorem C01_end_to_end_merge_matcher_every_metric : forall x c a r,
+  nonneg_arr a -> c_matcher c = 3 ->
+  zero_case (n_pred_inst a) (n_ref_inst a) = None -> pipeline x c a = Ok r ->
+  let decr := decreasing (c_mmetric c) in
+  let cs := cand_list x (c_mmetric c) a in
+  (forall cd, In cd cs -> fst cd = x_union x (cref cd) [cpred cd]) ->
+  let st := merge_match (better_eq decr) Qeq_bool (fun s => beats decr s (c_mthr c)) (x_union x) cs in
+  let L := ms_map st in let a' := map_instance_labels L a in
+  wf_matching L a /\
+  (forall l, In l (matched_labels a') <-> exists p, In (p, l) L) /\
+  let TP := filter (fun l => passes_decision (c_dm c) (c_dthr c) (fun m => escore x L a m l)) (matched_labels a') in
+  (zero_case (n_pred_inst a') (n_ref_inst a') = None ->
+     o_tp r = Z.of_nat (length TP) /\
+     (forall mr, In mr (o_metrics r) -> m_all mr = map (escore x L a (m_metric mr)) TP) /\
+     (In RVD (c_ems c) -> forall l, In l (matched_labels a') -> rvd (Some (l, preds_of l L)) a = Ok (escore x L a RVD l)) /\
+     o_fp r = n_pred_inst a' - o_tp r /\ o_fn r = n_ref_inst a - o_tp r).
+Proof. exact end_to_end_merge_all. Qed.
+
+(* non-vacuity: all five metrics evaluated, ASSD as decision metric (lower is better, threshold 1): reference 1 / prediction 7
+   (IoU 1/2, RVD 0, ASSD 1/2 supplied) is a true positive, reference 2 has no partner, prediction 9 is spurious *)
+Example C01_every_metric_nonvacuous :
+  let a := [(1, 7); (1, 7); (1, 0); (0, 7); (2, 0); (0, 9); (0, 0)] in
+  let x := {| x_inst := fun m _ => match m with ASSD => 1 # 2 | _ => 3 # 4 end; x_pair := fun _ => 0%Q; x_union := fun _ _ => 0%Q |} in
+  let c := {| c_matcher := 1; c_mmetric := IOU; c_mthr := 1 # 2; c_ems := [DSC; IOU; ASSD; clDSC; RVD];
+              c_dm := Some ASSD; c_dthr := Some (1 # 1); c_handler := default_handler |} in
+  match pipeline x c a with
+  | Ok r => o_tp r = 1 /\ o_fp r = 1 /\ o_fn r = 1 /\
+            map (fun mr => (m_metric mr, map Qred (m_all mr))) (o_metrics r)
+            = [(DSC, [Qred (rnd (2 # 3))]); (IOU, [1 # 2]); (ASSD, [1 # 2]); (clDSC, [3 # 4]); (RVD, [0 # 1])]
+  | Err _ => False end.
+Proof. vm_compute. repeat split; reflexivity. Qed.
+
 (* ================================================================================================ *)
 (* C01, semantic input -- the whole path "approximate instances, then the instance pipeline" inside the model:
    [semantic_pipeline] is the composition (Model/Semantic.v), the instances it evaluates are the connected components
